@@ -21,6 +21,8 @@ void* tzr_load(const char* bytes, std::size_t n) {
 }
 void tzr_free(void* h) { delete static_cast<cctz::TimeZoneInfo*>(h); }
 void tzr_hints(void* h, std::size_t a, std::size_t b) { auto* z = static_cast<cctz::TimeZoneInfo*>(h); z->local_time_hint_.store(a); z->time_local_hint_.store(b); }
+// the zone as ExtendTransitions leaves it: the table's tail is declared to be 401 rule-generated years ending in last_year
+void tzr_extend(void* h, long long last_year) { auto* z = static_cast<cctz::TimeZoneInfo*>(h); z->extended_ = true; z->last_year_ = last_year; }
 long tzr_counts(void* h, int which) { auto* z = static_cast<cctz::TimeZoneInfo*>(h); return which == 0 ? (long)z->transitions_.size() : which == 1 ? (long)z->transition_types_.size() : (long)z->default_transition_type_; }
 static void putcs(long long* o, const cctz::civil_second& c) { o[0] = c.year(); o[1] = c.month(); o[2] = c.day(); o[3] = c.hour(); o[4] = c.minute(); o[5] = c.second(); }
 void tzr_break(void* h, long long t, long long* out /* 6 cs, offset, is_dst, abbr offset */) {
